@@ -5,7 +5,7 @@
 // arbitrary blocks, feeds all of them to consensus.Process (fresh and warm instance) and to the node-level import, and
 // logs one Case event per block with the abstract projection that Trace_BlockRules.tla judges.
 //
-//	blockrules -out <dir> -seed S [-mode catalogue|arb|both] [-profiles a,b] [-blocks N] [-bases boundary|all]
+//	blockrules -out <dir> -seed S [-mode catalogue|arb|both|basefee -cases file] [-profiles a,b] [-blocks N] [-bases boundary|all]
 //	           [-arb N] [-only rule:variant]
 //
 // writes <dir>/trace.ndjson (Case events), <dir>/blobs.ndjson (RLP of every fed block, panic stacks) and prints a
@@ -43,6 +43,7 @@ func main() {
 	basesF := flag.String("bases", "all", "all | boundary (two base blocks per profile around the fork height / chain end)")
 	arbN := flag.Int("arb", 200, "structurally arbitrary inputs per profile")
 	only := flag.String("only", "", "run only rule:variant")
+	bfCases := flag.String("cases", "", "mode basefee: JSON file with the cases exported by MC_BlockRulesBaseFee")
 	flag.Parse()
 	if *out == "" {
 		harnessError("-out required")
@@ -60,6 +61,20 @@ func main() {
 	id := 0
 	for _, p := range profiles() {
 		if len(want) > 0 && !want[p.name] {
+			continue
+		}
+		if *mode == "basefee" {
+			if p.name != "poa-galactica" {
+				continue
+			}
+			w := newWorld(p, *seed)
+			r := newRunner(w)
+			r.runBaseFee(*bfCases)
+			evs, blobs = append(evs, r.evs...), append(blobs, r.blobs...)
+			for k, v := range r.stats {
+				summary[k] = v
+			}
+			w.close()
 			continue
 		}
 		w := newWorld(p, *seed*1000+int64(len(p.name)))
